@@ -236,11 +236,15 @@ def f16_degenerate(x0, y0, x1, y1, a, b, theta):
     return None
 
 
+_KNOWN_DEV = [0.0]
+
+
 def judge_pixels(obs, vals, x_edges, y_edges, area_fn, margin_fn, what, ellipse=None, fast_exact_one=False):
     """vals[j, i] for pixel [x_edges[i], x_edges[i+1]] x [y_edges[j], y_edges[j+1]] (centre-relative coordinates)."""
     ny, nx = vals.shape
     nb = 0
     total_exp = 0.0
+    _KNOWN_DEV[0] = 0.0
     for j in range(ny):
         for i in range(nx):
             v = float(vals[j, i])
@@ -258,6 +262,8 @@ def judge_pixels(obs, vals, x_edges, y_edges, area_fn, margin_fn, what, ellipse=
                 if not known and ellipse is not None and min(ellipse[0], ellipse[1]) < 0.05:
                     # second known kernel mechanism: in the unit-circle frame the pixel is > 20 radii across
                     key, known = K_THIN, f'semi-minor axis {min(ellipse[0], ellipse[1]):.3g} px'
+                if known:
+                    _KNOWN_DEV[0] += (v - exp) if math.isfinite(v) else float('nan')          # what the known mechanisms contribute to the mask sum
                 obs.violation(key, f'{what}: pixel [{x0!r},{x1!r}]x[{y0!r},{y1!r}] exact value {v!r}, true overlap fraction {exp!r}'
                               + (f' (degenerate alignment: {known})' if known else ''))
                 continue
@@ -431,10 +437,12 @@ def run_case(case, obs):
                   f'ellipse a={a!r} b={b!r} theta={th!r} centre=({cx!r},{cy!r}): the part of the ellipse inside the mask box {bb!r} has area {tot!r}, '
                   f'the ellipse {math.pi * a * b!r}', 'mask-box')
         ok = abs(s - math.pi * a * b) <= (nb + 1) * 1e-8
-        if not ok and lane == 'nice-ellipse' and any(f16_degenerate(xe[i], ye[j], xe[i + 1], ye[j + 1], a, b, th)
-                                                     for i in range(len(xe) - 1) for j in range(len(ye) - 1)):
+        # a wrong sum is attributed to a known kernel mechanism only as far as the pixels that show that mechanism explain it
+        explained = math.isnan(_KNOWN_DEV[0]) or abs((s - math.pi * a * b) - _KNOWN_DEV[0]) <= (nb + 1) * 1e-8
+        if not ok and explained and lane == 'nice-ellipse' and any(f16_degenerate(xe[i], ye[j], xe[i + 1], ye[j + 1], a, b, th)
+                                                                   for i in range(len(xe) - 1) for j in range(len(ye) - 1)):
             obs.violation(K_F16, f'ellipse a={a!r} b={b!r}: exact mask sums to {s!r}, analytic area {math.pi * a * b!r} (degenerate alignment present)')
-        elif not ok and min(a, b) < 0.05:
+        elif not ok and explained and min(a, b) < 0.05:
             obs.violation(K_THIN, f'ellipse a={a!r} b={b!r}: exact mask sums to {s!r}, analytic area {math.pi * a * b!r} (semi-minor axis below 0.05 px)')
         else:
             obs.check(ok, 'exact-mask-sum-not-analytic-area', f'ellipse a={a!r} b={b!r} theta={th!r}: exact mask sums to {s!r}, analytic area {math.pi * a * b!r}',
